@@ -180,21 +180,29 @@ Definition tick_to_sqrt_price (tick : Z) (tp : tick_params) : res Z :=
   let! s := approx_sqrt_res pm in
   of_opt (dquo s MULT_SQRT).
 
-(* the linear search of CalculateMultipliedPriceToTick *)
+(* the linear search of CalculateMultipliedPriceToTick, with the no-progress guard of the fix
+   "stop the price->tick search when a step makes no progress": each step must strictly move the
+   multiplied price, otherwise ErrPriceOutOfBound (checked after the step, before the tick moves) *)
 Fixpoint search_up (fuel : nat) (mp offset ratio tick : Z) : res Z :=
   if mp <=? offset then Ok tick else
   match fuel with
   | O => Err E_FUEL
-  | S f => let! mp' := of_opt (dquo mp ratio) in search_up f mp' offset ratio (tick + 1)
+  | S f => let! mp' := of_opt (dquo mp ratio) in
+           if negb (mp' <? mp) then Err E_PRICE_OUT_OF_BOUND
+           else search_up f mp' offset ratio (tick + 1)
   end.
 Fixpoint search_down (fuel : nat) (mp offset ratio tick : Z) : res Z :=
   if offset <=? mp then Ok tick else
   match fuel with
   | O => Err E_FUEL
-  | S f => let! mp' := of_opt (dmul mp ratio) in search_down f mp' offset ratio (tick - 1)
+  | S f => let! mp' := of_opt (dmul mp ratio) in
+           if negb (mp <? mp') then Err E_PRICE_OUT_OF_BOUND
+           else search_down f mp' offset ratio (tick - 1)
   end.
 
-Definition SEARCH_FUEL : nat := 200000.
+(* the model gives up (E_FUEL: undecided, the case is skipped by the correspondence) beyond this
+   many search steps; the implementation's loop is the same linear search *)
+Definition SEARCH_FUEL : nat := 6000.
 
 Definition multiplied_price_to_tick (mp : Z) (tp : tick_params) : res Z :=
   if mp <? 0 then Err E_NEG_PRICE else
